@@ -272,7 +272,12 @@ def run(ctx):
                 elif want['mode'] == 'gdb':
                     # the instance started inside gdb must receive exactly our words, gdb exactly the forwarded ones
                     nh += 1
-                    call, inner = gdb_handover(a)
+                    try:
+                        call, inner = gdb_handover(a)
+                    except (RuntimeError, KeyError) as e:
+                        # the tool refuses to start gdb (or never gets as far as starting it) for a legitimate command line
+                        rep.violation('gdb:not-started', 'gdb would not be started for %r: %r' % (words, e), rp)
+                        continue
                     if call[3:] != after:
                         rep.violation('gdb:forwarded', 'gdb would be started with %r after the -ex command, forwarded words are %r' % (call[3:], after), rp)
                     if inner != ['main.py'] + before:
